@@ -69,6 +69,60 @@ def digitsVal : List Char → Nat → Nat
   | [], acc => acc
   | c :: cs, acc => digitsVal cs (acc * 10 + digitVal c)
 
+/-! Primitives of `core::str` and of inner.rs `scan`, as the generated date parser (Model/GenLib.lean)
+uses them; a `&str` that is parsed character by character is a `List Char` (DESIGN.md appendix B). -/
+namespace Str
+
+/-- `str::strip_prefix(char)` -/
+def stripPrefixChar (s : List Char) (c : Char) : Option (List Char) :=
+  match s with
+  | x :: r => if x == c then some r else none
+  | [] => none
+
+/-- inner.rs `scan(s, predicate)`: `s` split before the first character the predicate refuses
+(`char_indices().find(..)` stops calling it there; the split point it finds is a character boundary
+by construction, so `split_at` cannot panic).  The predicate is an `FnMut`: it is given the values of
+the variables it captured mutably and returns their new values with its answer. -/
+def scanSt {σ : Type} (p : σ → Char → Bool × σ) (st : σ) : List Char → (List Char × List Char) × σ
+  | [] => (([], []), st)
+  | c :: cs =>
+    match p st c with
+    | (true, st') =>
+      match scanSt p st' cs with
+      | ((ds, rest), st'') => ((c :: ds, rest), st'')
+    | (false, st') => (([], c :: cs), st')
+
+/-- a non-empty run of ASCII digits and its value -/
+def parseDigits (ds : List Char) : Option Nat :=
+  if ds.isEmpty then none else if ds.all isAsciiDigit then some (digitsVal ds 0) else none
+
+/-- `<u32 as FromStr>::from_str`: an optional `+`, then digits; `none` = any `ParseIntError` -/
+def parseU32 (s : List Char) : Option Int :=
+  let ds := match s with
+    | '+' :: r => r
+    | _ => s
+  match parseDigits ds with
+  | some n => if n ≤ 4294967295 then some (n : Int) else none
+  | none => none
+
+/-- `<i32 as FromStr>::from_str`: an optional sign, then digits; `none` = any `ParseIntError` -/
+def parseI32 (s : List Char) : Option Int :=
+  match s with
+  | '-' :: r =>
+    match parseDigits r with
+    | some n => if inI32 (-(n : Int)) then some (-(n : Int)) else none
+    | none => none
+  | '+' :: r =>
+    match parseDigits r with
+    | some n => if inI32 (n : Int) then some (n : Int) else none
+    | none => none
+  | _ =>
+    match parseDigits s with
+    | some n => if inI32 (n : Int) then some (n : Int) else none
+    | none => none
+
+end Str
+
 /-- inner.rs `scan` with the predicate `is_ascii_digit`: longest digit prefix and rest -/
 def spanDigits : List Char → List Char × List Char
   | [] => ([], [])
